@@ -1,7 +1,7 @@
 """C01 - reported attractor seeds correspond one-to-one to the network's attractors."""
 import families
 import oracle
-from common import STRATEGIES, all_seeds, check_cache, check_global_seeds, fail, make_sd, net_info, run_step
+from common import STRATEGIES, all_seeds, check_cache, check_global_seeds, fail, make_sd, net_info, run_step, same_motifs_one_maa
 
 BOUND = ("networks with <= 6 variables (all 1-variable, a seeded sample of the 256 2-variable networks, seeded random 3-6 variable networks) plus "
          "hand-built networks with <= 10 variables (motif-avoidant core alone and composed with latches/switches/sources, the inputs of findings "
@@ -13,18 +13,6 @@ RULE = "non-trivial = the network has at least two attractors or a non-fixed-poi
 CASE_TIMEOUT = 60.0
 COMPLETE = ["build", "block", "bfs", "dfs", "scc", "aseeds"]
 PRE = [[False, False], [True, False], [False, True]]  # (greedy_asp_minification, simulation_minification)
-
-
-def same_motifs_one_maa(bnet, valuations):
-    """Shape filter of families.same_motif_cond_nets (brute force): under all the given controller valuations the rest of the network has the SAME
-    stable motifs (maximal trap spaces), under at least one of them it has a motif-avoidant attractor and under at least one it has none."""
-    net = oracle.Net.from_bnet(bnet)
-    motifs, maa = set(), set()
-    for val in valuations:
-        sub = net.restrict(net.percolate(val))
-        motifs.add(tuple(sorted(oracle.skey(m) for m in sub.max_traps_in({}))))
-        maa.add(bool(sub.motif_avoidant()))
-    return len(motifs) == 1 and maa == {True, False}
 
 
 def cases(seed, tier):
